@@ -237,6 +237,13 @@ func drawC15(t *rapid.T) caseC15 {
 			classes = []string{"k128"}
 		}
 		f.Data = gen.DrawRecipe(t, 3, 250000, classes...)
+		if rapid.IntRange(0, 15).Draw(t, "longdist") == 0 {
+			// a repeat farther back than the dictionary of the low presets
+			// (-0: 256 KiB): a member written with a large dictionary must be
+			// decoded whatever preset is given to -d
+			n := rapid.IntRange(270000, 330000).Draw(t, "ldlen")
+			f.Data = gen.Recipe{{Kind: "random", Len: n, Seed: rapid.Uint64().Draw(t, "ldseed")}, {Kind: "copyback", Dist: n, Len: rapid.IntRange(1000, 8000).Draw(t, "ldcopy")}}
+		}
 		f.Mode = rapid.SampledFrom([]uint32{0644, 0600, 0640, 0755, 0444, 0666, 0400}).Draw(t, "mode")
 		if (f.Kind == "xzutils_xz" || f.Kind == "gxz_xz") && rapid.IntRange(0, 3).Draw(t, "multistream") == 0 {
 			f.Streams = rapid.IntRange(2, 3).Draw(t, "nstreams")
@@ -274,6 +281,21 @@ func drawC15(t *rapid.T) caseC15 {
 			c.Invs = []invC15{first, second}
 			return c
 		}
+	}
+	// interoperability with a large-dictionary writer: a member written by
+	// xz-utils whose matches reach farther back than the dictionary of the
+	// preset given to `gxz -d` (the preset must not matter for decoding)
+	if rapid.IntRange(0, 11).Draw(t, "foreignbigdict") == 0 {
+		n := rapid.IntRange(270000, 330000).Draw(t, "fbdlen")
+		f := fileC15{Name: "far.xz", Kind: "xzutils_xz", Mode: 0644, Opt: rapid.SampledFrom([]string{"-6", "-9e", "--lzma2=dict=1MiB"}).Draw(t, "fbdopt"),
+			Data: gen.Recipe{{Kind: "random", Len: n, Seed: rapid.Uint64().Draw(t, "fbdseed")}, {Kind: "copyback", Dist: n, Len: rapid.IntRange(1000, 8000).Draw(t, "fbdcopy")}}}
+		if rapid.Bool().Draw(t, "fbdlzma") {
+			f.Name, f.Kind, f.Opt = "far.lzma", "xzutils_lzma", rapid.SampledFrom([]string{"-6", "-9"}).Draw(t, "fbdlzopt")
+		}
+		c.Files = []fileC15{f}
+		inv := invC15{Flags: []flagC15{{F: "d", Style: "short"}, {F: fmt.Sprint(rapid.IntRange(0, 2).Draw(t, "fbdpreset")), Style: "short"}}, Files: []string{f.Name}, FlagPos: []int{0, 0}}
+		c.Invs = []invC15{inv}
+		return c
 	}
 	ninv := rapid.IntRange(1, 2).Draw(t, "ninv")
 	cur := map[string]bool{}
